@@ -250,6 +250,8 @@ _ADD_LEVEL7 = {
            "reader was never opened from a TOC.",
     "C11": " Added: a private alignment helper of the binary matchers reads a sub-matcher's id() only where it is known active "
            "(also run for C01).",
+    "C12": " Added: every composite skip_to_quality loop continues while the bound is <= the threshold and leaves when no "
+           "sub-matcher moved (also run for C05).",
     "C13": " Added: the trie split stops when the next tier's bounds have crossed or wrapped; a range emptied by its exclusive "
            "bounds yields no tier.",
     "C15": " Added: Wildcard.normalize rewrites to Term/Prefix only a text free of every metacharacter the class declares; the boost "
@@ -272,7 +274,7 @@ for _k in list(LEVEL):
                              "delegation returns what it delegates.")
 for _k in list(NOTE):
     NOTE[_k] = NOTE[_k] + (" All rules are invariant under the behaviour-preserving whole-tree transformations of tools/robust.py "
-                           "and silent on the 366 confirmed refactorings under benign/ (one more, benign_open/C097, is a recorded open false alarm) (thorough tier). Independent seeding rounds: an unseen "
+                           "and silent on the 358 confirmed refactorings under benign/ (one more, benign_open/C097, is a recorded open false alarm) (thorough tier). Independent seeding rounds: an unseen "
                            "regression was caught in 19/40, 20/60, 23/60, 25/60, 21/60, 21/60 and 24/60 cases before the rules were strengthened; an unseen refactoring "
                            "raised a false alarm in 27/80, 27/57, 15/60, 15/60, 16/60 and 13/50 cases before the machinery was corrected (DESIGN.md C2, C8, C12, C13, C14, C15). "
                            "The transformations are now 24.")
